@@ -95,10 +95,10 @@ Record BoxInv (b : mbox) : Prop := MkBoxInv {
   bi_sorted : ssorted (mb_uids b);
   bi_alive : forall u, In u (mb_uids b) <-> exists q, log_last (mb_log b) u = Some (q, true);
   bi_dead : forall u, In u (map m_uid (mb_dead b)) <-> exists q, log_last (mb_log b) u = Some (q, false);
-  bi_range : forall u, known b u -> (DICT_UID_BASE < u <= mb_max_uid b)%N;
-  bi_base : (DICT_UID_BASE <= mb_max_uid b)%N }.
+  bi_range : forall u, known b u -> (uid_base (mb_md b) < u <= mb_max_uid b)%N;
+  bi_base : (uid_base (mb_md b) <= mb_max_uid b)%N }.
 
-Lemma BoxInv_new ro : BoxInv (mb_new ro).
+Lemma BoxInv_new md ro : BoxInv (mb_new md ro).
 Proof.
   constructor; cbn; try exact LogInv_empty; auto.
   - intros u; split; [tauto|]. intros [q H]. discriminate.
@@ -123,10 +123,15 @@ Proof.
   intros I H K. apply (bi_alive _ I) in H as [q H]. apply (bi_dead _ I) in K as [q' K]. congruence.
 Qed.
 
-Lemma mb_get_known b u : BoxInv b -> known b u -> exists m ex, mb_get u b = Some (m, ex) /\ m_uid m = u.
+Lemma mb_get_known b u cf : BoxInv b -> known b u -> (mb_md b = true -> cf <> None) ->
+  exists m ex, mb_get u cf b = Some (m, ex) /\ m_uid m = u.
 Proof.
-  intros I K. pose proof (bi_range _ I u K) as R. unfold mb_get.
-  destruct ((u <? 1)%N || (mb_max_uid b <? u)%N) eqn:E; [unfold DICT_UID_BASE in R; lia|].
+  intros I K Hcf. pose proof (bi_range _ I u K) as R. unfold mb_get.
+  destruct (mb_md b) eqn:Md.
+  { destruct (mb_alive u b) as [m|] eqn:A.
+    - exists m, false. split; auto. apply find_msg_Some in A. apply A.
+    - destruct cf as [f|]; [|exfalso; apply Hcf; auto]. eexists; eexists. split; reflexivity. }
+  destruct ((u <? 1)%N || (mb_max_uid b <? u)%N) eqn:E; [unfold uid_base, DICT_UID_BASE in R; lia|].
   destruct (known_cases b u I K) as [H|H].
   - apply mb_alive_In in H. destruct (mb_alive u b) as [m|] eqn:A; [|congruence].
     exists m, false. split; auto. apply find_msg_Some in A. apply A.
@@ -146,7 +151,8 @@ Record BoxLe (b b' : mbox) : Prop := MkBoxLe {
   le_flags : forall u m m', mb_alive u b = Some m -> mb_alive u b' = Some m' ->
                             log_last (mb_log b') u = log_last (mb_log b) u -> m_flags m' = m_flags m;
   le_max : (mb_max_uid b <= mb_max_uid b')%N;
-  le_ro : mb_readonly b' = mb_readonly b }.
+  le_ro : mb_readonly b' = mb_readonly b;
+  le_md : mb_md b' = mb_md b }.
 
 Lemma BoxLe_refl b : BoxLe b b.
 Proof.
@@ -181,6 +187,7 @@ Proof.
       apply (bi_alive _ I1) in H as [q0 H]. congruence.
   - pose proof (le_max _ _ A). pose proof (le_max _ _ B). lia.
   - rewrite (le_ro _ _ B). apply (le_ro _ _ A).
+  - rewrite (le_md _ _ B). apply (le_md _ _ A).
 Qed.
 
 (* ------------------------------------------------------------ operations *)
@@ -205,12 +212,12 @@ Proof.
     by (apply Lin; left; reflexivity).
   assert (Lo : forall u, u <> u' -> log_last (ms_update [u'] (mb_log b)) u = log_last (mb_log b) u).
   { intros u Hu. apply Lout. intros [K|[]]. congruence. }
-  assert (Uids : mb_uids (MkBox (mb_readonly b) u' (mb_msgs b ++ [MkMsg u' fl r c]) (mb_dead b)
+  assert (Uids : mb_uids (MkBox (mb_md b) (mb_readonly b) u' (mb_msgs b ++ [MkMsg u' (storable (mb_md b) fl) r c]) (mb_dead b)
                                 (ms_update [u'] (mb_log b))) = mb_uids b ++ [u']).
   { unfold mb_uids. cbn [mb_msgs]. rewrite map_app. reflexivity. }
   pose proof (bi_base _ I) as Base.
   split; [|split; [|split; [reflexivity|rewrite Uids; apply in_or_app; right; left; reflexivity]]].
-  - constructor; cbn [mb_log mb_dead mb_max_uid]; auto.
+  - constructor; cbn [mb_log mb_dead mb_max_uid mb_md]; auto.
     + rewrite Uids. apply ssorted_app. repeat split; [apply (bi_sorted _ I)|intros ? []|].
       intros x y Hx [<-|[]]. apply (alive_known _ _ I), (bi_range _ I) in Hx. lia.
     + intros u. rewrite Uids, in_app_iff. cbn [In]. destruct (N.eq_dec u u') as [->|Ne].
@@ -225,7 +232,7 @@ Proof.
       * unfold u'. lia.
       * rewrite (Lo u Ne) in K. apply (bi_range _ I) in K. lia.
     + lia.
-  - constructor; cbn [mb_log mb_max_uid mb_readonly]; auto; try lia.
+  - constructor; cbn [mb_log mb_max_uid mb_readonly mb_md]; auto; try lia.
     + intros u q k H. destruct (N.eq_dec u u') as [->|Ne].
       * right. rewrite Lu in H. inversion H; subst. lia.
       * left. rewrite (Lo u Ne) in H. exact H.
@@ -236,23 +243,35 @@ Proof.
       rewrite find_msg_app, H1 in H2. congruence.
 Qed.
 
-Lemma mb_update_inv u op fl b b' m ex : BoxInv b ->
-  mb_update u op fl b = Some (b', m, ex) ->
+Lemma mb_get_cases u cf b m ex : mb_get u cf b = Some (m, ex) ->
+  m_uid m = u /\ (ex = false -> mb_alive u b = Some m) /\ (ex = true -> mb_alive u b = None).
+Proof.
+  unfold mb_get. destruct (mb_md b).
+  - destruct (mb_alive u b) as [x|] eqn:A.
+    + intros H; injection H as H1 H2; subst x ex. split; [apply (find_msg_Some _ _ _ A)|].
+      split; [auto|discriminate].
+    + destruct cf as [f|]; [|discriminate]. intros H; injection H as H1 H2; subst m ex.
+      split; [reflexivity|]. split; [discriminate|auto].
+  - destruct ((u <? 1)%N || (mb_max_uid b <? u)%N); [discriminate|].
+    destruct (mb_alive u b) as [x|] eqn:A.
+    + intros H; injection H as H1 H2; subst x ex. split; [apply (find_msg_Some _ _ _ A)|].
+      split; [auto|discriminate].
+    + destruct (find_msg u (mb_dead b)) as [d|] eqn:D; [|discriminate].
+      intros H; injection H as H1 H2; subst d ex. split; [apply (find_msg_Some _ _ _ D)|].
+      split; [discriminate|auto].
+Qed.
+
+Lemma mb_update_inv u cf op fl b b' m ex : BoxInv b ->
+  mb_update u cf op fl b = Some (b', m, ex) ->
   BoxInv b' /\ BoxLe b b' /\ m_uid m = u /\ (ex = true -> b' = b) /\
   (ex = false -> In u (mb_uids b)).
 Proof.
-  intros I. unfold mb_update. destruct (mb_get u b) as [[m0 [|]]|] eqn:G; [| |discriminate].
-  - intros H. injection H as Hb Hm He. subst b' ex m. cbn [m_uid]. unfold mb_get in G.
-    destruct ((u <? 1)%N || (mb_max_uid b <? u)%N); [discriminate|].
-    destruct (mb_alive u b); [discriminate|].
-    destruct (find_msg u (mb_dead b)) as [md|] eqn:D; [|discriminate].
-    injection G as Gm. subst md.
-    apply find_msg_Some in D as [D _].
+  intros I. unfold mb_update. destruct (mb_get u cf b) as [[m0 [|]]|] eqn:G; [| |discriminate].
+  - intros H. injection H as Hb Hm He. subst b' ex m. cbn [m_uid].
+    destruct (mb_get_cases _ _ _ _ _ G) as (D & _ & _).
     split; [exact I|]. split; [apply BoxLe_refl|]. split; [exact D|]. split; [auto|discriminate].
   - intros H. injection H as Hb Hm He. subst b' ex m. cbn [m_uid].
-    assert (A : mb_alive u b = Some m0).
-    { unfold mb_get in G. destruct ((u <? 1)%N || (mb_max_uid b <? u)%N); [discriminate|].
-      destruct (mb_alive u b); [congruence|]. destruct (find_msg u (mb_dead b)); discriminate. }
+    assert (A : mb_alive u b = Some m0) by (apply (mb_get_cases _ _ _ _ _ G); reflexivity).
     pose proof (find_msg_Some _ _ _ A) as [Mu _].
     assert (Au : In u (mb_uids b)) by (apply mb_alive_In; congruence).
     assert (NDu : NoDup [u]) by (constructor; [intros []|constructor]).
@@ -262,12 +281,12 @@ Proof.
       by (apply Lin; left; reflexivity).
     assert (Lo : forall v, v <> u -> log_last (ms_update [u] (mb_log b)) v = log_last (mb_log b) v).
     { intros v Hv. apply Lout. intros [K|[]]. congruence. }
-    set (m' := MkMsg (m_uid m0) (flagop_apply op (m_flags m0) fl) (m_recent m0) (m_content m0)).
-    assert (Uids : mb_uids (MkBox (mb_readonly b) (mb_max_uid b) (replace_msg m' (mb_msgs b))
+    set (m' := MkMsg (m_uid m0) (storable (mb_md b) (flagop_apply op (m_flags m0) fl)) (m_recent m0) (m_content m0)).
+    assert (Uids : mb_uids (MkBox (mb_md b) (mb_readonly b) (mb_max_uid b) (replace_msg m' (mb_msgs b))
                                   (mb_dead b) (ms_update [u] (mb_log b))) = mb_uids b).
     { unfold mb_uids. cbn [mb_msgs]. apply replace_msg_uids. }
     split; [|split; [|split; [exact Mu|split; [discriminate|auto]]]].
-    + constructor; cbn [mb_log mb_dead mb_max_uid]; auto.
+    + constructor; cbn [mb_log mb_dead mb_max_uid mb_md]; auto.
       * rewrite Uids. apply (bi_sorted _ I).
       * intros v. rewrite Uids. destruct (N.eq_dec v u) as [->|Ne].
         -- split; [eauto|auto].
@@ -281,7 +300,7 @@ Proof.
         -- apply (bi_range _ I), alive_known; auto.
         -- rewrite (Lo v Ne) in K. apply (bi_range _ I), K.
       * apply (bi_base _ I).
-    + constructor; cbn [mb_log mb_max_uid mb_readonly]; auto; try lia.
+    + constructor; cbn [mb_log mb_max_uid mb_readonly mb_md]; auto; try lia.
       * intros v q k H. destruct (N.eq_dec v u) as [->|Ne].
         -- right. rewrite Lu in H. inversion H; subst. lia.
         -- left. rewrite (Lo v Ne) in H. exact H.
@@ -303,7 +322,7 @@ Proof.
   destruct (ms_set_spec false uids (mb_log b) (bi_log _ I) ND) as (LI & LH & Lin & Lout).
   fold (ms_expunge uids (mb_log b)) in LI, LH, Lin, Lout.
   set (keepf := fun u => negb (nmem u uids)).
-  assert (Uids : forall u, In u (mb_uids (MkBox (mb_readonly b) (mb_max_uid b)
+  assert (Uids : forall u, In u (mb_uids (MkBox (mb_md b) (mb_readonly b) (mb_max_uid b)
                    (filter (fun m => negb (nmem (m_uid m) uids)) (mb_msgs b))
                    (filter (fun m => nmem (m_uid m) uids) (mb_msgs b) ++ mb_dead b)
                    (ms_expunge uids (mb_log b)))) <-> In u (mb_uids b) /\ ~ In u uids).
@@ -311,7 +330,7 @@ Proof.
     rewrite (map_uid_filter keepf). rewrite filter_In. unfold keepf.
     rewrite negb_true_iff, nmem_false. tauto. }
   split; [|split; [|exact Uids]].
-  - constructor; cbn [mb_log mb_dead mb_max_uid]; auto.
+  - constructor; cbn [mb_log mb_dead mb_max_uid mb_md]; auto.
     + unfold mb_uids. cbn [mb_msgs]. rewrite (map_uid_filter keepf).
       apply ssorted_filter, (bi_sorted _ I).
     + intros u. rewrite Uids. destruct (nmem u uids) eqn:E.
@@ -327,7 +346,7 @@ Proof.
       * apply nmem_In in E. apply (bi_range _ I), Kn, E.
       * apply nmem_false in E. rewrite (Lout u E) in K. apply (bi_range _ I), K.
     + apply (bi_base _ I).
-  - constructor; cbn [mb_log mb_max_uid mb_readonly]; auto; try lia.
+  - constructor; cbn [mb_log mb_max_uid mb_readonly mb_md]; auto; try lia.
     + intros u q k H. destruct (nmem u uids) eqn:E.
       * apply nmem_In in E. right. rewrite (Lin u E) in H. inversion H; subst. lia.
       * apply nmem_false in E. left. rewrite (Lout u E) in H. exact H.
@@ -386,12 +405,12 @@ Proof.
     apply filter_In in K2 as [K2 _]. apply in_map_iff. eauto. }
   destruct (ms_set_spec true uids (mb_log b) (bi_log _ I) ND) as (LI & LH & Lin & Lout).
   fold (ms_update uids (mb_log b)) in LI, LH, Lin, Lout.
-  assert (Uids : mb_uids (MkBox (mb_readonly b) (mb_max_uid b)
+  assert (Uids : mb_uids (MkBox (mb_md b) (mb_readonly b) (mb_max_uid b)
                    (map (fun m => MkMsg (m_uid m) (m_flags m) false (m_content m)) (mb_msgs b))
                    (mb_dead b) (ms_update uids (mb_log b))) = mb_uids b).
   { unfold mb_uids. cbn [mb_msgs]. rewrite map_map. reflexivity. }
   split; [|split; [|split; [exact Uids|exact Sub]]].
-  - constructor; cbn [mb_log mb_dead mb_max_uid]; auto.
+  - constructor; cbn [mb_log mb_dead mb_max_uid mb_md]; auto.
     + rewrite Uids. apply (bi_sorted _ I).
     + intros u. rewrite Uids. destruct (nmem u uids) eqn:E.
       * apply nmem_In in E. split; [rewrite (Lin u E); eauto|auto].
@@ -405,7 +424,7 @@ Proof.
       * apply nmem_In in E. apply (bi_range _ I), alive_known; auto.
       * apply nmem_false in E. rewrite (Lout u E) in K. apply (bi_range _ I), K.
     + apply (bi_base _ I).
-  - constructor; cbn [mb_log mb_max_uid mb_readonly]; auto; try lia.
+  - constructor; cbn [mb_log mb_max_uid mb_readonly mb_md]; auto; try lia.
     + intros u q k H. destruct (nmem u uids) eqn:E.
       * apply nmem_In in E. right. rewrite (Lin u E) in H. inversion H; subst. lia.
       * apply nmem_false in E. left. rewrite (Lout u E) in H. exact H.
